@@ -42,6 +42,14 @@ type PauseController struct {
 
 	lock         sync.RWMutex
 	pauseChannel chan bool
+	pauseOutcome *pauseOutcome
+}
+
+// pauseOutcome is how a pause ended: it is filled in, once, before the pause's
+// channel is closed, and tells the requests the pause held what released them.
+type pauseOutcome struct {
+	state       PauseState
+	stopMessage string
 }
 
 func NewPauseController() *PauseController {
@@ -108,6 +116,7 @@ func (p *PauseController) Pause(failAfter time.Duration) error {
 
 	if p.State != PauseStatePaused {
 		p.pauseChannel = make(chan bool)
+		p.pauseOutcome = &pauseOutcome{}
 	}
 
 	p.State = PauseStatePaused
@@ -122,7 +131,7 @@ func (p *PauseController) Resume() error {
 }
 
 func (p *PauseController) Wait() (PauseWaitAction, string) {
-	state, stopMessage, pauseChannel, failChannel := p.getWaitState()
+	state, stopMessage, pauseChannel, outcome, failChannel := p.getWaitState()
 
 	switch state {
 	case PauseStateRunning:
@@ -134,9 +143,9 @@ func (p *PauseController) Wait() (PauseWaitAction, string) {
 	default:
 		select {
 		case <-pauseChannel:
-			switch p.GetState() {
+			switch outcome.state {
 			case PauseStateStopped:
-				return PauseWaitActionStopped, p.GetStopMessage()
+				return PauseWaitActionStopped, outcome.stopMessage
 			default:
 				return PauseWaitActionProceed, ""
 			}
@@ -146,15 +155,15 @@ func (p *PauseController) Wait() (PauseWaitAction, string) {
 	}
 }
 
-func (p *PauseController) getWaitState() (PauseState, string, chan bool, <-chan time.Time) {
+func (p *PauseController) getWaitState() (PauseState, string, chan bool, *pauseOutcome, <-chan time.Time) {
 	p.lock.RLock()
 	defer p.lock.RUnlock()
 
 	if p.State == PauseStatePaused {
-		return PauseStatePaused, "", p.pauseChannel, time.After(p.FailAfter)
+		return PauseStatePaused, "", p.pauseChannel, p.pauseOutcome, time.After(p.FailAfter)
 	}
 
-	return p.State, p.StopMessage, nil, nil
+	return p.State, p.StopMessage, nil, nil, nil
 }
 
 func (p *PauseController) setState(newState PauseState, message string) {
@@ -162,6 +171,7 @@ func (p *PauseController) setState(newState PauseState, message string) {
 	defer p.lock.Unlock()
 
 	if p.State != newState && p.State == PauseStatePaused {
+		p.pauseOutcome.state, p.pauseOutcome.stopMessage = newState, message
 		close(p.pauseChannel)
 	}
 
